@@ -522,6 +522,7 @@ fn is_retryable_error(err: &RepeError) -> bool {
                 | std::io::ErrorKind::ConnectionRefused
                 | std::io::ErrorKind::ConnectionReset
                 | std::io::ErrorKind::ConnectionAborted
+                | std::io::ErrorKind::BrokenPipe
                 | std::io::ErrorKind::NotConnected
                 | std::io::ErrorKind::UnexpectedEof
                 | std::io::ErrorKind::WouldBlock
